@@ -357,6 +357,22 @@ def r3(ctx, R):
                 R.bad(se, mk[0], "only defined cells are written (%s): values assigned on a derived cells "
                                  "(C = new_space(bases=A); C.foo[1] = 5) are silently dropped by write/read" % ", ".join(restr),
                       stmt="derived cells inputs not written")
+    pds = ctx.func(S6 + ":SpaceEncoder._pickle_dynamic_space")
+    R.inst("_pickle_dynamic_space: inputs of the cells, then recursion into child spaces AND nested ItemSpaces")
+    its = set()
+    for lp_ in [x for x in walk_local(pds.node) if isinstance(x, ast.For)]:
+        calls_ = [c for b in lp_.body for c in ast.walk(b) if isinstance(c, ast.Call)]
+        if any(call_name(c) == "_pickle_dynamic_space" and len(c.args) >= 2 and norm(c.args[1]) == norm(lp_.target) for c in calls_):
+            its.add(q.rnorm(pds, lp_.iter))
+        if any(call_name(c) == "_pickle_inputs" and len(c.args) >= 2 and norm(c.args[1]) == norm(lp_.target) for c in calls_):
+            its.add("cells:" + q.rnorm(pds, lp_.iter))
+    covers_children = any(t in its for t in ("space.named_spaces.values()", "space._named_spaces.values()"))
+    covers_items = any(t in its for t in ("space._named_itemspaces.values()", "space.named_itemspaces.values()"))
+    if any("all_spaces" in t for t in its):
+        covers_children = covers_items = True
+    if not (covers_children and covers_items and "cells:space.cells.values()" in its):
+        R.bad(pds, pds.node, "inputs in an ItemSpace nested inside a dynamic space (Base[1].C[3].foo[2] = 7) are not written: "
+                             "the recursion covers %s" % sorted(its), stmt="_pickle_dynamic_space recursion")
     ce = ctx.func(S6 + ":CellsEncoder.encode")
     R.inst("CellsEncoder emits _is_cached exactly when the flag is False and _allow_none when it is set")
     g = [n for n in ce.cfg.nodes if n.kind == "test"]
